@@ -1322,8 +1322,30 @@ def sites_calling(body, name_pred):
             if (body.callee_name(c) is not None and name_pred(body.callee_name(c)))]
 
 
+_MIRROR = {'Lt': 'Gt', 'Gt': 'Lt', 'Le': 'Ge', 'Ge': 'Le', 'Eq': 'Eq', 'Ne': 'Ne'}
+
+
+def _both_orientations(pred):
+    """`a < b` and `b > a` are the same fact: a guard predicate is tried on a relation as written and mirrored, so that
+    a rule never depends on which operand the source happens to put first"""
+    def p2(f):
+        try:
+            if pred(f):
+                return True
+        except Exception:
+            pass
+        if isinstance(f, tuple) and f and f[0] == 'rel' and len(f) >= 4 and f[1] in _MIRROR:
+            try:
+                return bool(pred(('rel', _MIRROR[f[1]], f[3], f[2]) + tuple(f[4:])))
+            except Exception:
+                return False
+        return False
+    return p2
+
+
 def guard_edges(facts, body, pred):
     """all (src, dst, label) CFG edges out of switch blocks whose edge fact satisfies pred(fact)"""
+    pred = _both_orientations(pred)
     out = []
     for bi, bl in enumerate(body.blocks):
         if bl['cl'] or bl['t'][0] != 'switch':
